@@ -303,7 +303,7 @@ theorem desc_signalD (s : State) (c : Nat) : Desc (signalD s c) ↔ Desc s := by
     · exact desc_of_not_newfb (by simp [setC]) (by simp [setC]) (by simp [setC])
   split <;> split <;> split <;> simp_all
 
-theorem pickBelow_lt (s : State) : ∀ k c, pickBelow s k = some c → c < k := by
+theorem pickBelow_lt (s : State) (b : Bool) : ∀ k c, pickBelow s b k = some c → c < k := by
   intro k
   induction k with
   | zero => intro c h; simp [pickBelow] at h
@@ -382,7 +382,7 @@ theorem desc_lis {s : State} {l : Lbl} {s' : State} (h : Desc s) (hp : lisPc s.l
     | (exfalso; simp [lisPc, *] at hp; done)
     | (simp at hs; crack_hyps; all_goals desc_fin)
 
-theorem pick_lt {s : State} {p c : Nat} (h : pick s (some p) = some c) : c < p := pickBelow_lt s p c h
+theorem pick_lt {s : State} {b : Bool} {p c : Nat} (h : pick s b (some p) = some c) : c < p := pickBelow_lt s b p c h
 
 macro "desc_app_fin" : tactic => `(tactic| (
   subst_vars
@@ -394,7 +394,7 @@ macro "desc_app_fin" : tactic => `(tactic| (
 macro "desc_newfb_fin" h:ident : tactic => `(tactic| (
   subst_vars
   try (have halk := alk_doLock ‹doLock _ _ _ _ = some _›)
-  try (have hlt := pick_lt ‹pick _ (some _) = some _›)
+  try (have hlt := pick_lt ‹pick _ _ (some _) = some _›)
   simp only [Desc, ‹State.apc _ = _›] at $h:ident
   simp only [Desc, setC_app, alk_setC, alk_doUnlock, alk_incRef, alk_decRef, alk_setAlkT_app, alk_signalD, touch_alk,
     afterNext, finished, nextIter, *]
